@@ -21,7 +21,7 @@ func init() {
 			"NOT decided: bit-exact round trip of simple8b/zstd/gorilla/snappy packing for every value sequence (value-level), corrupted (as opposed to truncated) length prefixes that overflow.",
 		Assumptions: append([]string{"K-BOUNDS: decoded length prefixes are non-negative and length arithmetic does not overflow"}, commonAssumptions...),
 		Technique:   "static analysis: constant/mode tables from the typed AST, field-coverage symmetry of codec pairs, error-before-use reachability on go/cfg, symbolic length lower-bound dataflow over the CFG",
-		Rules:       "C07.R1 R2 R3 R4 R5 R6 R7 R8",
+		Rules:       "C07.R1 R2 R3 R4 R5 R6 R7 R8 R9",
 	}
 }
 
@@ -50,6 +50,7 @@ func c07(c *an.Ctx) {
 	c07rows(c)
 	c07grow(c)
 	c07onerow(c)
+	c07bitmapWindow(c)
 }
 
 // constsIn returns the family constants referenced in the function; when
@@ -1231,4 +1232,55 @@ func c07onerow(c *an.Ctx) {
 	}
 	r.AddSites(n)
 	r.Floor(5, "one-row block emissions")
+}
+
+// ---------------------------------------------------------------------- R9
+
+// c07bitmapWindow: a column segment cut out of a larger record (SliceFromRecord, size-based
+// fragments) shares the record's null bitmap and starts at a BIT offset inside it.  The
+// bytes that hold `Len` bits starting at bit offset o are ((o&7)+Len+7)>>3 bytes, one more
+// than (Len+7)>>3 when the window straddles a byte boundary.  That arithmetic lives in
+// lib/record (ColVal.SubBitmapBytes); the block writers take the window from there and
+// never slice ColVal.Bitmap themselves.
+func c07bitmapWindow(c *an.Ctx) {
+	const I = "engine/immutable"
+	r := c.Rule("C07.R9", "K-PROVENANCE", I+": block writers serialise a column's null bitmap through ColVal.SubBitmapBytes (bit-offset aware), never by slicing ColVal.Bitmap")
+	bm := obj(r, "lib/record:ColVal.Bitmap")
+	sub := obj(r, "lib/record:ColVal.SubBitmapBytes")
+	if r.Failed() {
+		return
+	}
+	if f := fn(r, I+":EncodeColumnHeader"); f != nil {
+		sb := f.Find(an.MCall("ColVal.SubBitmapBytes", sub))
+		r.AddSites(sb.Len())
+		if sb.Len() == 0 {
+			r.Fail(f.Name+": bitmap window", c.P.Pos(f.Body.Pos()), "EncodeColumnHeader no longer takes the bitmap bytes and the bit offset of the segment from ColVal.SubBitmapBytes")
+		}
+	}
+	n := 0
+	for _, d := range c.P.AllDecls() {
+		if !an.InPkg(d, I) {
+			continue
+		}
+		n++
+		info := d.Pkg.TypesInfo
+		ast.Inspect(d.Decl.Body, func(m ast.Node) bool {
+			var x ast.Expr
+			switch e := m.(type) {
+			case *ast.SliceExpr:
+				x = e.X
+			default:
+				return true
+			}
+			if sel, ok := ast.Unparen(x).(*ast.SelectorExpr); ok && info.Uses[sel.Sel] == bm {
+				if se := m.(*ast.SliceExpr); se.Low == nil && se.High != nil && types.ExprString(se.High) == "0" {
+					return true // x.Bitmap[:0] re-use of the buffer
+				}
+				r.Fail(d.Name()+": slices ColVal.Bitmap", c.P.Pos(m.Pos()), "%s cuts bytes out of ColVal.Bitmap itself: the bit offset of a sliced column inside its first byte is lost (the window can need one byte more than (Len+7)/8), trailing rows decode as NULL", d.Name())
+			}
+			return true
+		})
+	}
+	r.AddSites(n)
+	r.Floor(300, "functions of engine/immutable scanned")
 }
